@@ -142,7 +142,7 @@ fn o16_1_tag_innermost() {
     }
 }
 
-//@ harness: o16_1_tag_single props=C16 tier=quick obl=O16.1 timeout=2400 mem=20
+//@ harness: o16_1_tag_single props=C16 tier=quick obl=O16.1 timeout=800 mem=20
 //@ desc: as o16_1_tag_innermost with a single rect (no nesting): the rect receives the tag iff the carrier lies inside it
 //@ encodes: FragmentTree::enclose_deep_first, FragmentTree::can_fit
 #[kani::proof]
@@ -174,7 +174,7 @@ fn o10_3_tree_step_plain() {
     }
 }
 
-//@ harness: o10_3_tree_step_plain_single props=C10,C16 tier=quick obl=O10.3 timeout=1200 mem=20
+//@ harness: o10_3_tree_step_plain_single props=C10,C16 tier=quick obl=O10.3 timeout=800 mem=20
 //@ desc: single rect (no nesting), an ordinary one-cell fragment at ANY cell of a 30x15 window: enclose_deep_first adds it exactly once iff its cell rectangle lies inside the rect, never styles, otherwise leaves the tree unchanged
 //@ encodes: FragmentTree::enclose_deep_first, FragmentTree::can_fit
 #[kani::proof]
